@@ -299,7 +299,8 @@ def topIndices (ents : List TocEnt) : List Nat :=
   go ents ents 0 0
 
 /-- The loop `for _, e := range toc.Entries[ent.chunkTopIndex:]` of `fileReader.ReadAt` for the
-target entry at index `ti`: the other chunks handed to the pre-reader, or `none` when an
+target entry at index `ti` (as of 8686934: empty regular files are skipped): the other chunks handed
+to the pre-reader, or `none` when an
 `io.CopyN(io.Discard, dr, e.InnerOffset-nr)` is asked for a negative count (which it reports as an
 error) or the target is not met. `nr` is tracked as in the code assuming every pre-read chunk is
 consumed (cached chunks are skipped by the callback without reading; the next discard then skips
@@ -314,6 +315,8 @@ def preRunMemWith (tops : List Nat) (ents : List TocEnt) (ti : Nat) : Option (Li
         | [], _, _, found, acc => if found then some acc.reverse else none
         | e :: es, i, nr, found, acc =>
           if !e.data then go es (i + 1) nr found acc
+          -- `if e.Type == "reg" && e.Size == 0 { continue }` (8686934): an empty file has no data in any stream
+          else if e.csize = 0 ∧ e.coff = 0 then go es (i + 1) nr found acc
           else if e.offset ≠ topE.offset then (if found then some acc.reverse else none)
           else if e.inner < nr then none
           else if i = ti then go es (i + 1) e.inner true acc
